@@ -332,6 +332,8 @@ class TDict(Sort):
         )
 
     def truthy(self, a):
+        if self.ordered:
+            return self.keys_list(a).terms[0] > 0
         k = z3.Const(fresh_name("kx"), self.kz)
         return z3.Exists([k], z3.Select(a.terms[0], k))
 
@@ -363,6 +365,16 @@ class TTuple(Sort):
 
     def truthy(self, a):
         return z3.BoolVal(len(self.elems) > 0)
+
+
+class TFn(_Atomic):
+    """a callable drawn from a finite set of functions under contract (value = index into `names`)"""
+
+    zsort = z3.IntSort()
+
+    def __init__(self, names):
+        self.names = list(names)
+        self.name = "Fn[" + ",".join(self.names) + "]"
 
 
 class TExcC(Sort):
